@@ -253,7 +253,8 @@ impl Monitor {
     }
 
     pub fn gate(&mut self, ok: bool, what: &str) {
-        if !ok {
+        // a replay judges one case only; coverage gates do not apply to it
+        if !ok && self.cfg.only_case.is_none() {
             self.inconclusive.push(what.to_string());
         }
     }
